@@ -189,7 +189,12 @@ fn wrap(e: &E) -> String {
 
 pub fn show_stmt(s: &Stmt) -> String {
     match s {
-        Stmt::Expr(e) => show(e),
+        // An infix operator continues the previous line, so a statement must not begin with
+        // a sign: `floor` / `-[]` on two lines is the single statement `floor - []`.
+        Stmt::Expr(e) => {
+            let t = show(e);
+            if t.starts_with('-') || t.starts_with('+') { format!("({})", t) } else { t }
+        }
         Stmt::Output(n, None) => format!("output {}", n),
         Stmt::Output(n, Some(e)) => format!("output {} = {}", n, show(e)),
     }
